@@ -484,6 +484,9 @@ func c10mkSpec(sec, in, ans string) (string, string) {
 		if len(f) != 11 {
 			return "format", ans
 		}
+		if strings.Contains(in, "\n") { // not a Line.Text; the splitter asserts that there is no newline
+			return "", ""
+		}
 		varname, value, sp, hc, comment, align := unhx(f[2]), unhx(f[5]), unhx(f[7]), f[8] == "1", unhx(f[9]), f[10]
 		if align == "P" {
 			if strings.Contains(varname, "#") {
